@@ -625,10 +625,31 @@ Qed.
 Lemma okpaths_app sg a b : okpaths sg (a ++ b) -> okpaths sg a /\ okpaths sg b.
 Proof. intro H. split; intros p Hp; apply H; apply in_or_app; auto. Qed.
 
+Lemma eval_segs_ext c sg l : forall st,
+  okpaths sg (flat_map (fun s => match s with SSub q => [of_fpath q] | _ => [] end) l) ->
+  ext st (snd (eval_segs c sg l st)).
+Proof.
+  induction l as [|s l IH]; simpl; intros st H; [apply ext_refl|].
+  apply okpaths_app in H. destruct H as [Hs Hl].
+  assert (E1 : ext st (snd (match s with
+                            | SKey x => (VStr x, st)
+                            | SIdx i => (VInt i, st)
+                            | SSub q => eval_fpath c sg q st
+                            end))).
+  { destruct s as [x|i|q]; simpl; try apply ext_refl.
+    unfold eval_fpath. destruct (lookup c st (fp_root q)) as [v0 g]. simpl. apply emit_ext.
+    apply (Hs (of_fpath q)). left; reflexivity. }
+  destruct (match s with SKey x => (VStr x, st) | SIdx i => (VInt i, st) | SSub q => eval_fpath c sg q st end) as [k st1].
+  simpl in E1. pose proof (IH st1 Hl) as E2. destruct (eval_segs c sg l st1) as [ks st2]. simpl in *.
+  eapply ext_trans; eassumption.
+Qed.
+
 Lemma eval_atom_ext c sg a st : okpaths sg (atom_paths a) -> ext st (snd (eval_atom c sg a st)).
 Proof.
   destruct a as [v|p]; simpl; intro H; [apply ext_refl|].
-  destruct (lookup c st (p_root p)) as [v0 g]. simpl. apply emit_ext. apply H. left; reflexivity.
+  assert (Hsub : okpaths sg (sub_paths p)) by (intros q Hq; apply H; right; exact Hq).
+  pose proof (eval_segs_ext c sg (p_segs p) st Hsub) as E1. destruct (eval_segs c sg (p_segs p) st) as [ks st1]. simpl in E1.
+  destruct (lookup c st1 (p_root p)) as [v0 g]. simpl. eapply ext_trans; [exact E1|]. apply emit_ext. apply H. left; reflexivity.
 Qed.
 
 Lemma eval_atoms_ext c sg l : forall st, okpaths sg (flat_map atom_paths l) -> ext st (snd (eval_atoms c sg l st)).
@@ -685,6 +706,22 @@ Proof.
   apply okpaths_app in H. destruct H as [Ha Hb].
   pose proof (eval_atom_ext c sg a st Ha) as E1. destruct (eval_atom c sg a st) as [v st1]. simpl in E1.
   eapply ext_trans; [exact E1 | apply IH; exact Hb].
+Qed.
+
+Lemma eval_iter_ext c sg it st :
+  (forall e, In e (iter_exprs it) -> okpaths sg (expr_paths e)) -> ext st (snd (eval_iter c sg it st)).
+Proof.
+  destruct it as [p|a b]; intro H; unfold eval_iter.
+  - assert (Hp : okpaths sg (atom_paths (AVar p))).
+    { pose proof (H _ (or_introl eq_refl)) as Hp. unfold expr_paths in Hp. simpl in Hp. rewrite app_nil_r in Hp. exact Hp. }
+    pose proof (eval_atom_ext c sg (AVar p) st Hp) as E. destruct (eval_atom c sg (AVar p) st) as [v st1]. exact E.
+  - assert (Ha : okpaths sg (atom_paths a)).
+    { pose proof (H _ (or_introl eq_refl)) as Hp. unfold expr_paths in Hp. simpl in Hp. rewrite app_nil_r in Hp. exact Hp. }
+    assert (Hb : okpaths sg (atom_paths b)).
+    { pose proof (H _ (or_intror (or_introl eq_refl))) as Hp. unfold expr_paths in Hp. simpl in Hp. rewrite app_nil_r in Hp. exact Hp. }
+    pose proof (eval_atom_ext c sg a st Ha) as E1. destruct (eval_atom c sg a st) as [va st1]. simpl in E1.
+    pose proof (eval_atom_ext c sg b st1 Hb) as E2. destruct (eval_atom c sg b st1) as [vb st2]. simpl in *.
+    eapply ext_trans; eassumption.
 Qed.
 
 Lemma eval_params_ext c sg sgd (b : list (str * option (bool * atom))) : forall acc st,
@@ -790,13 +827,67 @@ Local Arguments bind_params : simpl never.
 Local Arguments iter : simpl never.
 Local Arguments to_iter : simpl never.
 
+Lemma cov_children_nil sg n b :
+  CovN sg n -> n_partial n = None -> n_tscope n = [] -> n_bscope n = [] -> n_children n = b -> CovL sg b.
+Proof.
+  intros Hc Hp Ht Hb Hch. pose proof (H_children _ _ Hc Hp) as H. rewrite Ht, Hb, Hch in H. simpl in H.
+  rewrite app_nil_r in H. exact H.
+Qed.
+
+Lemma run_alts_inv f c
+  (IHl : forall l sg st, CovL sg l -> inv st -> inv (run_nodes (exec P f c) (assigned P f) sg l st)) :
+  forall alts sg els st,
+    CovL sg (map (fun cb => NElsif (fst cb) (snd cb)) alts ++ els) -> inv st ->
+    inv (run_alts (run_nodes (exec P f c) (assigned P f)) (eval_cond c) (flatM (assigned P f)) sg alts els st).
+Proof.
+  induction alts as [|[cd b] r IH]; simpl; intros sg els st Hc Hi; [apply IHl; assumption|].
+  destruct (H_cons _ _ _ Hc) as [Hn Hrest].
+  assert (Hp : okpaths sg (flat_map atom_paths (cond_atoms cd))).
+  { apply (plain_list_ok sg (NElsif cd b)); [exact Hn|]. intros a Ha. simpl. apply in_map. exact Ha. }
+  pose proof (eval_cond_ext c sg cd st Hp) as E. destruct (eval_cond c sg cd st) as [v st1]. simpl in E.
+  pose proof (ext_inv _ _ E Hi) as Hi1.
+  destruct v.
+  - apply IHl; [|exact Hi1]. eapply cov_children_nil; [exact Hn | reflexivity..].
+  - destruct (flatM (assigned P f) b) as [a| |] eqn:Ea; [|apply inv_exhaust; exact Hi1|apply inv_exhaust; exact Hi1].
+    apply IH; [|exact Hi1]. apply (Hrest (S f)). simpl. rewrite Ea. reflexivity.
+Qed.
+
+Lemma run_whens_inv f c sg0 subj
+  (IHl : forall l sg st, CovL sg l -> inv st -> inv (run_nodes (exec P f c) (assigned P f) sg l st))
+  (Hsubj : okpaths sg0 (atom_paths subj)) :
+  forall whens sg els matched st,
+    CovL sg (map (fun ab => NWhen subj (fst ab) (snd ab)) whens ++ els) -> inv st ->
+    inv (run_whens (run_nodes (exec P f c) (assigned P f)) (eval_atom c sg0 subj) (eval_atoms c)
+                   (flatM (assigned P f)) sg whens els matched st).
+Proof.
+  induction whens as [|[atoms b] r IH]; simpl; intros sg els matched st Hc Hi.
+  - destruct matched; [exact Hi | apply IHl; assumption].
+  - destruct (H_cons _ _ _ Hc) as [Hn Hrest].
+    pose proof (eval_atom_ext c sg0 subj st Hsubj) as E1. destruct (eval_atom c sg0 subj st) as [v st1]. simpl in E1.
+    assert (Hp : okpaths sg (flat_map atom_paths atoms)).
+    { apply (plain_list_ok sg (NWhen subj atoms b)); [exact Hn|]. intros a Ha. simpl. apply in_map. exact Ha. }
+    pose proof (eval_atoms_ext c sg atoms st1 Hp) as E2. destruct (eval_atoms c sg atoms st1) as [ws st2]. simpl in E2.
+    assert (Hi2 : inv st2) by (eapply ext_inv; [exact E2|]; eapply ext_inv; eassumption).
+    assert (Hb : CovL sg b) by (eapply cov_children_nil; [exact Hn | reflexivity..]).
+    assert (Hi3 : inv (iter (fun (_ : unit) s => run_nodes (exec P f c) (assigned P f) sg b s)
+                            (repeat tt (length (filter (veq v) ws))) st2)).
+    { apply iter_inv; [|exact Hi2]. intros x s Hs. apply IHl; assumption. }
+    destruct (flatM (assigned P f) b) as [a| |] eqn:Ea; [|apply inv_exhaust; exact Hi3|apply inv_exhaust; exact Hi3].
+    apply IH; [|exact Hi3]. apply (Hrest (S f)). simpl. rewrite Ea. reflexivity.
+Qed.
+
+Lemma iter_exprs_ok sg n it :
+  CovN sg n -> (forall e, In e (iter_exprs it) -> In e (n_exprs n)) ->
+  forall e, In e (iter_exprs it) -> okpaths sg (expr_paths e).
+Proof. intros Hc Hin e He. exact (proj1 (H_exprs _ _ e Hc (Hin e He))). Qed.
+
 Lemma sim_node : forall fuel c sg n st, CovN sg n -> inv st -> inv (exec P fuel c sg n st).
 Proof.
   induction fuel as [|f IH]; intros c sg n st Hc Hi.
   - simpl. destruct (d_status st); [apply inv_exhaust| |]; exact Hi.
   - pose proof (sim_list_from f IH) as IHl0.
-    assert (IHl : forall l c sg st, CovL sg l -> inv st -> inv (run_nodes (exec P f c) (assigned P f) sg l st)).
-    { intros l c0 sg0 s0 Hl. apply (IHl0 l [] c0 sg0 s0). rewrite app_nil_r. exact Hl. }
+    assert (IHl : forall c l sg st, CovL sg l -> inv st -> inv (run_nodes (exec P f c) (assigned P f) sg l st)).
+    { intros c0 l sg0 s0 Hl. apply (IHl0 l [] c0 sg0 s0). rewrite app_nil_r. exact Hl. }
     simpl. destruct (d_status st) eqn:Hst; [|exact Hi|exact Hi].
     assert (Hi0 : inv (match n_tag n with Some t => emit (ETag t) st | None => st end)).
     { destruct (n_tag n) as [t|] eqn:Ht; [|exact Hi]. eapply ext_inv; [apply emit_ext; eapply H_tag; eassumption | exact Hi]. }
@@ -807,6 +898,9 @@ Proof.
     + (* output *)
       eapply ext_inv; [|exact Hi0]. destruct (H_exprs _ _ e Hc (or_introl eq_refl)) as [Hp Hf].
       apply eval_expr_ext; assumption.
+    + (* echo *)
+      eapply ext_inv; [|exact Hi0]. destruct (H_exprs _ _ e Hc (or_introl eq_refl)) as [Hp Hf].
+      apply eval_expr_ext; assumption.
     + (* assign *)
       destruct (H_exprs _ _ e Hc (or_introl eq_refl)) as [Hp Hf].
       pose proof (eval_expr_ext c sg e st0 Hp Hf) as E. destruct (eval_expr c sg e st0) as [v st1]. simpl in E.
@@ -815,23 +909,46 @@ Proof.
       apply inv_assign. apply IHl; [exact (H_children _ _ Hc eq_refl) | exact Hi0].
     + (* for *)
       pose proof (H_children _ _ Hc eq_refl) as Hch. simpl n_children in Hch.
-      pose proof (plain_ok _ _ (AVar it) Hc (or_introl eq_refl)) as Hp.
-      pose proof (eval_atom_ext c sg (AVar it) st0 Hp) as E. destruct (eval_atom c sg (AVar it) st0) as [v st1]. simpl in E.
+      pose proof (eval_iter_ext c sg it st0 (iter_exprs_ok sg _ it Hc (fun e He => He))) as E.
+      destruct (eval_iter c sg it st0) as [its st1]. simpl in E.
       pose proof (ext_inv _ _ E Hi0) as Hi1.
-      destruct (to_iter v) as [|v0 items].
+      destruct its as [|v0 items].
       * destruct (flatM (assigned P f) body) as [a| |] eqn:Ea; [|apply inv_exhaust; exact Hi1|apply inv_exhaust; exact Hi1].
         apply IHl; [eapply cov_app; [exact Hch | exact Ea] | exact Hi1].
       * apply iter_inv; [|exact Hi1]. intros item s Hs. eapply IHl0; [exact Hch | exact Hs].
-    + (* if *)
+    + (* tablerow *)
+      pose proof (H_children _ _ Hc eq_refl) as Hch. simpl n_children in Hch.
+      pose proof (eval_iter_ext c sg it st0 (iter_exprs_ok sg _ it Hc (fun e He => He))) as E.
+      destruct (eval_iter c sg it st0) as [its st1]. simpl in E.
+      pose proof (ext_inv _ _ E Hi0) as Hi1.
+      apply iter_inv; [|exact Hi1]. intros item s Hs. apply IHl; [exact Hch | exact Hs].
+    + (* if / unless *)
       pose proof (H_children _ _ Hc eq_refl) as Hch. simpl n_children in Hch.
       assert (Hp : okpaths sg (flat_map atom_paths (cond_atoms c0))).
-      { apply (plain_list_ok sg (NIf c0 thn els)); [exact Hc|]. intros a Ha. simpl. apply in_map. exact Ha. }
+      { apply (plain_list_ok sg (NIf neg c0 thn alts els)); [exact Hc|]. intros a Ha. simpl. apply in_map. exact Ha. }
       pose proof (eval_cond_ext c sg c0 st0 Hp) as E. destruct (eval_cond c sg c0 st0) as [b st1]. simpl in E.
       pose proof (ext_inv _ _ E Hi0) as Hi1.
-      destruct b.
+      destruct (xorb neg b).
       * eapply IHl0; [exact Hch | exact Hi1].
       * destruct (flatM (assigned P f) thn) as [a| |] eqn:Ea; [|apply inv_exhaust; exact Hi1|apply inv_exhaust; exact Hi1].
-        apply IHl; [eapply cov_app; [exact Hch | exact Ea] | exact Hi1].
+        apply (run_alts_inv f c (IHl c)); [eapply cov_app; [exact Hch | exact Ea] | exact Hi1].
+    + (* elsif, on its own *)
+      assert (Hp : okpaths sg (flat_map atom_paths (cond_atoms c0))).
+      { apply (plain_list_ok sg (NElsif c0 body)); [exact Hc|]. intros a Ha. simpl. apply in_map. exact Ha. }
+      pose proof (eval_cond_ext c sg c0 st0 Hp) as E. destruct (eval_cond c sg c0 st0) as [b st1]. simpl in E.
+      pose proof (ext_inv _ _ E Hi0) as Hi1.
+      destruct b; [|exact Hi1]. apply IHl; [exact (H_children _ _ Hc eq_refl) | exact Hi1].
+    + (* case *)
+      pose proof (H_children _ _ Hc eq_refl) as Hch. simpl n_children in Hch.
+      apply (run_whens_inv f c sg subj (IHl c)); [|exact Hch | exact Hi0].
+      apply (plain_ok _ _ subj Hc). simpl. left; reflexivity.
+    + (* when, on its own: not a template; the interpreter does nothing *)
+      exact Hi0.
+    + (* cycle *)
+      eapply ext_inv; [|exact Hi0]. apply eval_atoms_ext.
+      apply (plain_list_ok sg (NCycle group args)); [exact Hc|]. intros a Ha. simpl. apply in_map. exact Ha.
+    + (* liquid *)
+      apply IHl; [exact (H_children _ _ Hc eq_refl) | exact Hi0].
     + (* with *)
       assert (Hp : okpaths sg (flat_map (fun kv => atom_paths (snd kv)) binds)).
       { apply (plain_binds_ok sg (NWith binds body)); [exact Hc|]. intros kv Hkv. simpl.
@@ -904,6 +1021,8 @@ Proof.
         apply iter_inv; [|apply inv_fresh; exact Hi2]. intros item s Hs. apply IHl; [exact Hcb | apply inv_fresh; exact Hs].
       * apply inv_restore; [exact Hi1|]. apply IHl; [exact Hcb | apply inv_fresh; exact Hi1].
     + (* increment *)
+      destruct Hi0 as [T M]. split; assumption.
+    + (* decrement *)
       destruct Hi0 as [T M]. split; assumption.
 Qed.
 
@@ -1175,14 +1294,14 @@ Definition outv (s : str) : node := NOutput (plain (AVar (pv s))).
 (* for x in xs: include p1 / include p1, with p1 = x *)
 Definition W_seen : prog :=
   {| pg_root := q_main;
-     pg_tpls := [(q_main, [NFor q_x (pv q_xs) [NInclude q_p1 None []] []; NInclude q_p1 None []]);
+     pg_tpls := [(q_main, [NFor q_x (IPath (pv q_xs)) [NInclude q_p1 None []] []; NInclude q_p1 None []]);
                  (q_p1, [NText; outv q_x])] |}.
 Definition W_seen_data : list (str * value) := [(q_xs, VList [VInt 1; VInt 2]); (q_x, VStr [71%N])].
 
 (* if go: render main, go: false / render p1, with p1 = y | upcase, assign z = 1 *)
 Definition W_jg : prog :=
   {| pg_root := q_main;
-     pg_tpls := [(q_main, [NIf (CTruthy (AVar (pv q_go))) [NRender q_main None [(q_go, ALit (VBool false))]] [];
+     pg_tpls := [(q_main, [NIf false (CTruthy (AVar (pv q_go))) [NRender q_main None [(q_go, ALit (VBool false))]] [] [];
                            NRender q_p1 None []]);
                  (q_p1, [NText; NOutput {| e_left := AVar (pv q_y); e_filters := [{| f_name := q_upcase; f_args := [] |}] |};
                          NAssign q_z (plain (ALit (VInt 1)))])] |}.
@@ -1191,7 +1310,7 @@ Definition W_jg_data : list (str * value) := [(q_go, VBool true); (q_y, VStr [10
 (* if go: render p1 / v, with p1 = include p2, p2 = assign v = 1 *)
 Definition W_inc : prog :=
   {| pg_root := q_main;
-     pg_tpls := [(q_main, [NIf (CTruthy (AVar (pv q_go))) [NRender q_p1 None []] []; outv q_v]);
+     pg_tpls := [(q_main, [NIf false (CTruthy (AVar (pv q_go))) [NRender q_p1 None []] [] []; outv q_v]);
                  (q_p1, [NText; NInclude q_p2 None []]);
                  (q_p2, [NText; NAssign q_v (plain (ALit (VInt 1)))])] |}.
 Definition W_inc_data : list (str * value) := [(q_v, VStr [71%N])].
@@ -1231,4 +1350,32 @@ Lemma repaired_on_witnesses :
   (exists A, analyze W_inc 20 = Ok A /\ In (pv q_v) (a_globals A)).
 Proof.
   repeat split; eexists; (split; [vm_compute; reflexivity | vm_compute; tauto]).
+Qed.
+
+(* the widened language: unless/elsif, case/when, tablerow over a range, cycle, liquid, a nested path *)
+Definition q_a : str := [97]%N.
+Definition q_b : str := [98]%N.
+Definition q_k : str := [107]%N.
+Definition W_wide : prog :=
+  {| pg_root := q_main;
+     pg_tpls := [(q_main,
+        [NIf true (CTruthy (AVar (pv q_go))) [outv q_x] [(CEq (AVar (pv q_v)) (ALit (VInt 1)), [outv q_y])] [outv q_z];
+         NCase (AVar (pv q_v)) [([ALit (VInt 1); ALit (VInt 1)], [outv q_a])] [outv q_b];
+         NTablerow q_x (IRange (ALit (VInt 1)) (AVar (pv q_y))) [outv q_x];
+         NLiquid [NCycle None [AVar (pv q_a)];
+                  NEcho (plain (AVar {| p_root := q_a; p_segs := [SSub {| fp_root := q_b; fp_segs := [FKey q_k] |}] |}))];
+         NDecrement q_z; outv q_z])] |}.
+Definition W_wide_data : list (str * value) := [(q_go, VBool true); (q_v, VInt 1); (q_y, VInt 2); (q_b, VMap [(q_k, VStr q_k)])].
+
+Lemma wide_language_example :
+  exists A, analyze W_wide 20 = Ok A /\
+    (* the path used as a segment is reported on its own, and read on its own *)
+    In {| p_root := q_b; p_segs := [SKey q_k] |} (a_vars A) /\
+    In (ERead {| p_root := q_b; p_segs := [SKey q_k] |} true false) (d_trace (exec_prog W_wide 20 W_wide_data)) /\
+    (* unless go (true) falls to the elsif v == 1: y is read; the case value met twice renders a twice *)
+    length (filter (event_eqb (ERead (pv q_a) false false)) (d_trace (exec_prog W_wide 20 W_wide_data))) = 3 /\
+    d_status (exec_prog W_wide 20 W_wide_data) = Running.
+Proof.
+  eexists. split; [vm_compute; reflexivity|]. split; [vm_compute; tauto|]. split; [vm_compute; tauto|].
+  split; vm_compute; reflexivity.
 Qed.
